@@ -709,4 +709,64 @@ example : let wrong : Result := { expected exErrDet with err := (expected exErrD
     agreeX .unary ⟨wrong, some 409, [13, 9]⟩ (actual exErrDet (idWire exErrDet) false) (some 409) = true ∧
     agreeX .unary ⟨wrong, some 400, [13, 9]⟩ (actual exErrDet (idWire exErrDet) false) (some 409) = false := by decide
 
+/-! ## The error of a derived expectation is the definition's, verbatim -/
+
+/-- the derived expectation's error is the definition's error: code and message verbatim — whatever
+bytes the message is made of, the generator never looks inside — and details extended at the end only -/
+theorem expectedUnary_error_verbatim (tc : TC) (ex : Err) (h : (expectedUnary tc).err = some ex) :
+    ∃ d e, tc.udef = some d ∧ d.resp = .error e ∧ ex.code = e.code ∧ ex.msg = e.msg ∧ e.details <+: ex.details := by
+  unfold expectedUnary at h
+  by_cases hr : tc.reqs.isEmpty = true
+  · simp [hr] at h
+  · simp only [hr] at h
+    cases hu : tc.udef with
+    | none => simp [hu] at h
+    | some d =>
+      simp only [hu] at h
+      cases hresp : d.resp with
+      | none => simp [hresp] at h
+      | data b => simp [hresp] at h
+      | error e =>
+        refine ⟨d, e, rfl, hresp, ?_⟩
+        simp [hresp] at h
+        subst h
+        exact ⟨rfl, rfl, by simp [Err.addDetail]⟩
+
+theorem expectedStream_error_verbatim (tc : TC) (ex : Err) (h : (expectedStream tc).err = some ex) :
+    ∃ d e, tc.sdef = some d ∧ d.err = some e ∧ ex.code = e.code ∧ ex.msg = e.msg ∧ e.details <+: ex.details := by
+  unfold expectedStream at h
+  by_cases hr : tc.reqs.isEmpty = true
+  · simp [hr] at h
+  · simp only [hr] at h
+    cases hs : tc.sdef with
+    | none => simp [hs] at h
+    | some d =>
+      simp only [hs] at h
+      cases he : d.err with
+      | none => simp [he] at h
+      | some e =>
+        refine ⟨d, e, rfl, he, ?_⟩
+        by_cases hd : d.data.isEmpty = true
+        · simp [he, hd] at h
+          subst h
+          exact ⟨rfl, rfl, by simp [Err.addDetail]⟩
+        · simp [he, hd] at h
+          subst h
+          exact ⟨rfl, rfl, List.prefix_refl _⟩
+
+theorem expected_error_verbatim (tc : TC) (ex : Err) (h : (expected tc).err = some ex) :
+    (∃ d e, tc.udef = some d ∧ d.resp = .error e ∧ ex.code = e.code ∧ ex.msg = e.msg ∧ e.details <+: ex.details) ∨
+    (∃ d e, tc.sdef = some d ∧ d.err = some e ∧ ex.code = e.code ∧ ex.msg = e.msg ∧ e.details <+: ex.details) := by
+  unfold expected at h
+  cases hst : tc.st <;> simp only [hst] at h
+  · exact Or.inl (expectedUnary_error_verbatim tc ex h)
+  · exact Or.inl (expectedUnary_error_verbatim tc ex h)
+  · exact Or.inr (expectedStream_error_verbatim tc ex h)
+  · exact Or.inr (expectedStream_error_verbatim tc ex h)
+  · exact Or.inr (expectedStream_error_verbatim tc ex h)
+
+-- a message of every byte class goes through verbatim
+example : ((expected { exErrDet with udef := some ⟨[⟨"H", ["1"]⟩], [], .error ⟨9, some "\t%\n 100%\x7f\x00é☃", []⟩⟩ }).err.map (·.msg))
+    = some (some "\t%\n 100%\x7f\x00é☃") := by decide
+
 end ConfModel.Props.C02
